@@ -10,7 +10,7 @@ PROP_MODULES = ['TxV.Props.C15']
 AUDIT = 'Audit/C15.lean'
 ANCHORS = ['txtorcon/onion.py', 'txtorcon/torcontrolprotocol.py']
 RULE = ('real EphemeralOnionService.create() on the real protocol against the fake Tor: histories of HS_DESC UPLOAD / UPLOADED / FAILED events '
-        'over 1..4 directories for the service itself and for a second service sharing directories, in both waiting modes, with the control connection lost at a random position in some histories, with the ADD_ONION '
+        'over 1..4 directories (named by fingerprint, or by LongName with a nickname shared by all of them) for the service itself and for a second service sharing directories, in both waiting modes, with the control connection lost at a random position in some histories, with the ADD_ONION '
         'reply released before, between or after the events; after every input the state of the create() Deferred and the HS_DESC subscription '
         'are recorded. Quick: random histories; thorough: all orderings of per-directory event scripts for <= 3 directories. '
         'non-trivial = the wait fires or at least 3 own events; distinct = distinct (mode, history)')
@@ -20,12 +20,18 @@ ASSUMPTIONS = ["H: no foreign UPLOADED names a directory this service has a pend
 OWN_DIRS = [1, 2, 3, 4]
 
 
-def dir_s(d):
+def dir_s(d, style='fp'):
+    """how Tor names a directory in HS_DESC events: the fingerprint, or a LongName — different relays may share a nickname"""
+    if style == 'longname':
+        return '$%040X~Unnamed' % d
+    if style == 'named':
+        return '$%040X=relay' % d
     return '$%040X' % d
 
 
 class Impl:
-    def __init__(self, await_all):
+    def __init__(self, await_all, style='fp'):
+        self.style = style
         from harness.simtor import SimTor
         from txtorcon import TorConfig
         from txtorcon.onion import EphemeralOnionService
@@ -58,16 +64,16 @@ class Impl:
             _, kind, own, d = op
             addr = self.own if own else self.other
             if kind == 'upload':
-                self.st.event('HS_DESC UPLOAD %s UNKNOWN %s descid' % (addr, dir_s(d)))
+                self.st.event('HS_DESC UPLOAD %s UNKNOWN %s descid' % (addr, dir_s(d, self.style)))
             elif kind == 'uploaded':
-                self.st.event('HS_DESC UPLOADED %s UNKNOWN %s' % (addr, dir_s(d)))
+                self.st.event('HS_DESC UPLOADED %s UNKNOWN %s' % (addr, dir_s(d, self.style)))
             else:
-                self.st.event('HS_DESC FAILED %s UNKNOWN %s REASON=UPLOAD_REJECTED' % (addr, dir_s(d)))
+                self.st.event('HS_DESC FAILED %s UNKNOWN %s REASON=UPLOAD_REJECTED' % (addr, dir_s(d, self.style)))
         return [self.result[0] if self.result else 'none', 'sub' if 'HS_DESC' in self.st.proto.events else 'unsub']
 
 
 def run_impl(c):
-    im = Impl(c['await_all'])
+    im = Impl(c['await_all'], c.get('names', 'fp'))
     trace = []
     for op in c['ops']:
         trace.append(im.do(op))
@@ -127,7 +133,7 @@ def gen_history(rng):
 def gen_cases(rng, tier):
     n = 500 if tier == 'quick' else 6000
     for _ in range(n):
-        yield {'await_all': rng.random() < 0.5, 'ops': gen_history(rng)}
+        yield {'await_all': rng.random() < 0.5, 'ops': gen_history(rng), 'names': rng.choice(['fp', 'fp', 'longname', 'named'])}
     if tier == 'thorough':
         scripts = []
         for d in [1, 2, 3]:
